@@ -139,6 +139,16 @@ class StatePre:
         self.nodes = set(int(n) for n in tracks.graph.nodes)
 
 
+def _drop_counters(snap):
+    s = dict(snap)
+    s.pop("node_id_counter", None)
+    lk = dict(s.get("lookups", {}))
+    lk.pop("max_tracklet", None)
+    lk.pop("max_lineage", None)
+    s["lookups"] = lk
+    return s
+
+
 def fire(cfg, w, seed, history, ev, tracks, pre: StatePre):
     """Apply one event on `tracks` (which is in the pre-state) and evaluate all
     oracles.  Returns dict(status, key, violations, tags, reusable, post_bad)."""
@@ -168,11 +178,15 @@ def fire(cfg, w, seed, history, ev, tracks, pre: StatePre):
         tag = exc_tag(out.exc)
         res["tag"] = tag
         snap = canon.snapshot(tracks)
-        same = snap == pre.snap
-        res["reusable"] = same and not out.refresh
+        same = exact = snap == pre.snap
+        if not same:
+            # the id counters (largest id ever issued, node-id counter) are not part of
+            # what C11 promises to leave untouched; C06 checks that fresh ids stay fresh
+            same = _drop_counters(snap) == _drop_counters(pre.snap)
+        res["reusable"] = exact and not out.refresh  # reuse the object only if bit-identical
         if "C11" in props:
             if not same:
-                add("C11", "state-changed", "; ".join(canon.diff(pre.snap, snap)), "refused", tag)
+                add("C11", "state-changed", "; ".join(canon.diff(_drop_counters(pre.snap), _drop_counters(snap))), "refused", tag)
             if out.refresh:
                 add("C11", "refresh-emitted", f"{len(out.refresh)} refresh emission(s) from a refused action", "refused", tag)
         if "C20" in props and out.refresh:
@@ -307,7 +321,19 @@ def expand(task):
     stats = collections.Counter()
     tags = set()
     t0 = time.time()
-    tracks = rebuild(w, seed, history)
+    try:
+        tracks = events.with_watchdog(lambda: rebuild(w, seed, history), 30)
+    except (Exception, events.Hang) as e:  # noqa: BLE001
+        if history:
+            raise  # a state that was reached before must be reachable again
+        # the constructor / feature set-up itself fails on a valid seed
+        vio = []
+        for p in sorted(cfg.props):
+            vio.append(mk_violation(p, "construct-raises", f"building world {wname} seed {seed_j} raised {type(e).__name__}: {e}",
+                                    w, seed, [], ("construct",), "construct", type(e).__name__,
+                                    {"times": {}, "indeg": {}, "outdeg": {}, "edges": set()}))
+        return {"key": f"construct-failed:{wname}:{seed_j}", "succ": [], "violations": vio, "stats": stats, "tags": tags,
+                "nevents": 0, "tainted": sorted(cfg.props)}
     pre = StatePre(tracks, cfg)
     own_key = canon.state_key(tracks)
     vio = []
